@@ -86,7 +86,7 @@ Lemma it_next_mi : forall i ctx its s,
   it_next spn run Check i ctx its s
   = (let '(r, its', s') := it_next spn run Emit i ctx its s in (istrip r, its', s')).
 Proof.
-  induction i as [a lo hi|a sep lo hi lead trail|j IHj|f j IHj|f j IHj|a|a lo hi ck]; intros ctx its s;
+  induction i as [a lo hi|a sep lo hi lead trail|j IHj|f j IHj|f j IHj|a|a lo hi ck|a]; intros ctx its s;
     cbn [it_next].
   - destruct its; try reflexivity. rewrite rep_next_mi.
     destruct (rep_next run Emit a lo hi ctx n s) as [[r c'] s']. reflexivity.
@@ -100,6 +100,10 @@ Proof.
   - destruct its; try reflexivity.
     + rewrite rep_next_mi. destruct (rep_next run Emit a lo0 hi0 ctx n s) as [[r c'] s']. reflexivity.
     + rewrite H. run_emit; reflexivity.
+  - destruct its as [| | | | |[l|]]; try reflexivity.
+    + destruct l; reflexivity.
+    + destruct (run Emit a ctx s) as [[v| | |] s1]; try reflexivity.
+      destruct (val_items (getv v)); reflexivity.
 Qed.
 
 (* the driver: same outcome class, same "ended" flag, same number of items, same final state *)
@@ -334,7 +338,7 @@ Proof.
   - (* AndIs *) crush IH.
   - (* Rewind *) crush IH.
   - (* RepUnit *)
-    destruct i as [a lo hi| | | | | |];
+    destruct i as [a lo hi| | | | | | |];
       try (match goal with |- context [drive spn (go n) n Check ?i ?ctx ?its ?lim ?pa ?idx ?acc s] =>
              destruct (drive spn (go n) n Check i ctx its lim pa idx acc s) as [[[[] ?] ?] ?]; reflexivity end).
     destruct lo as [|lo]; [destruct hi as [hi|]|];
@@ -343,7 +347,7 @@ Proof.
     apply rep_fast_mi; exact IH.
   - (* Collect *) drive_case IH; crush IH.
   - (* CollectExactly *)
-    destruct n0 as [|k0]; [destruct (its_fail (mk_iter i ctx)) as [e0|]; [apply IH|]|]; drive_case IH; crush IH.
+    destruct n0 as [|k0]; [destruct (it_eager i ctx) as [e0|]; [apply IH|]|]; drive_case IH; crush IH.
   - (* Foldl *)
     rewrite IH. destruct (go n Emit g ctx s) as [[] s1]; cbn [fst snd strip]; try reflexivity.
     drive_case IH; crush IH.
@@ -384,6 +388,7 @@ Proof.
   - (* WithState *) rewrite HQ. reflexivity.
   - (* Skip *) reflexivity.
   - (* ExtWrap *) crush IH.
+  - (* Padded *) crush IH.
 Qed.
 
 End Modes.
